@@ -108,12 +108,12 @@ func (d *MemDev) ReadAt(p []byte, off int64) (int, error) {
 			short = true
 		}
 	}
-	for i := 0; i < n; i++ {
-		p[i] = d.ByteAt(off + int64(i))
-	}
 	if short {
+		// n may be symbolic: fill without a data-dependent loop bound
+		vp.FillFunc(p, func(i int) byte { return vp.IteU8(i < n, d.ByteAt(off+int64(i)), p[i]) })
 		return n, io.EOF
 	}
+	vp.FillFunc(p, func(i int) byte { return d.ByteAt(off + int64(i)) })
 	return n, nil
 }
 
